@@ -116,7 +116,14 @@ def main(argv=None):
     jobs = mod.jobs(tier)
     if only:
         jobs = [j for j in jobs if only in j[0] or only in repr(j[1])]
-    specs = [(prop.lower(), fn, kw, tier, seed) for fn, kw in jobs]
+    # thorough tier: a wall-time budget for the whole tier.  Jobs not started when it runs out are NOT run and are
+    # listed as such in the evidence (the verdict is about what was explored); the quick tier's jobs go first, so
+    # the thorough tier always contains the quick one.  A job that was started is never cut short by this budget.
+    tier_budget = float(os.environ.get("VERIF_TIER_BUDGET", "600" if tier == "thorough" else "0") or 0)
+    deadline = (t0 + tier_budget) if tier_budget > 0 else None
+    if tier == "thorough" and "VERIF_JOB_BUDGET" not in os.environ:
+        os.environ["VERIF_JOB_BUDGET"] = "600"
+    specs = [(prop.lower(), fn, kw, tier, seed, deadline) for fn, kw in jobs]
     # heavier jobs first
     order = list(range(len(specs)))
     if seed:
@@ -125,6 +132,9 @@ def main(argv=None):
     weights = getattr(mod, "job_weight", None)
     if weights:
         order.sort(key=lambda i: -weights(jobs[i][0], jobs[i][1]))
+    if tier == "thorough" and not only:
+        qkeys = {repr(j) for j in mod.jobs("quick")}
+        order.sort(key=lambda i: 0 if repr(jobs[i]) in qkeys else 1)     # stable: weights kept inside each group
     specs = [specs[i] for i in order]
 
     results = []
@@ -144,6 +154,8 @@ def main(argv=None):
         tv = tv_async.get()
         sv = sv_async.get() if sv_async is not None else None
 
+    skipped = [r for r in results if r.get("skipped")]
+    results = [r for r in results if not r.get("skipped")]
     from symx.harness import merge
     tot = merge(results)
     harness_errors = [(r.get("name"), r["error"]) for r in results if r.get("error")]
@@ -280,6 +292,7 @@ def main(argv=None):
             "jobs": [{"job": r.get("name"), "paths": r.get("paths"), "obligations": r.get("obligations"),
                       "discharged": r.get("discharged"), "complete": r.get("complete"),
                       "wall_s": r.get("wall_s"), "bounds": r.get("bounds")} for r in results],
+            "jobs_not_run_tier_budget": {"budget_s": tier_budget, "count": len(skipped), "jobs": [r.get("job") for r in skipped][:400]},
             "scenario_witnesses": scen, "samples": samples or [{"note": "no samples recorded"}],
             "repo_source_sha256_16": source_digest(),
             "translator_validation": tv, "string_layer_validation": sv,
@@ -301,6 +314,9 @@ def main(argv=None):
           "solver_s=%.1f wall_s=%.1f" % (prop, tier, len(results), tot["paths"], tot["obligations"],
                                          tot["discharged"], tot["unknown"] + tot["flip_unknown"],
                                          tot["solver_queries"], tot["solver_s"], wall))
+    if skipped:
+        print("NOTE: tier budget of %d s reached: %d of %d job(s) were not started and are listed in the evidence as not run" % (
+            tier_budget, len(skipped), len(skipped) + len(results)))
     for kid, (k, detail) in sorted(known_hits.items()):
         print("KNOWN-FINDING: property=%s %s [%s]" % (prop, k["what"], kid))
     for v in violations:
